@@ -62,6 +62,7 @@ type Path struct {
 	substMemo map[int]*term.T
 	pcSet     map[int]bool
 	loops     map[*fnInfo]int64
+	Notes     []string
 	termVal   map[int]*term.T
 	stackAtAbort []*fnInfo
 }
@@ -117,6 +118,7 @@ type PathResult struct {
 	SymForks  int
 	HasModel  bool
 	Tainted   bool
+	Notes     []string
 }
 
 type Explorer struct {
@@ -301,8 +303,22 @@ func (e *Explorer) Run() (*ExploreStats, error) {
 				case "violation", "panic", "unwind":
 					key := res.Outcome + ":" + res.Detail
 					st.ViolCount[key]++
-					if len(st.Violations[key]) < 3 {
-						st.Violations[key] = append(st.Violations[key], res)
+					// keep a diverse handful of witnesses per key (lowest path hashes), tried in turn at replay
+					const keep = 12
+					cur := st.Violations[key]
+					if len(cur) < keep {
+						st.Violations[key] = append(cur, res)
+					} else {
+						h := pathHash(res.Decisions, e.Seed)
+						mi := 0
+						for i := range cur {
+							if pathHash(cur[i].Decisions, e.Seed) > pathHash(cur[mi].Decisions, e.Seed) {
+								mi = i
+							}
+						}
+						if h < pathHash(cur[mi].Decisions, e.Seed) {
+							cur[mi] = res
+						}
 					}
 				case "unsupported", "limit":
 					if len(st.Inconclusive) < 20 {
@@ -424,6 +440,7 @@ func (in *Interp) RunPath(entry *ssa.Function, item WorkItem, e *Explorer) (res 
 	res.SymForks = p.SymForks
 	res.Covers = p.Covers
 	res.Tainted = p.Tainted
+	res.Notes = p.Notes
 	// model for the inputs
 	need := res.Outcome == "violation" || res.Outcome == "panic" || res.Outcome == "unwind" || (res.Outcome == "ok" && e != nil && e.SampleN > 0)
 	if need {
